@@ -42,7 +42,7 @@ Definition entry_deps (deps : list nat) (entry : list (list (option nat))) : lis
   map2 (fun dd col => match col with [Some x] => DIdx (off fb dd + x) | _ => DBefore 0 end) deps entry.
 
 Lemma entry_deps_expected deps : forall entry,
-  Forall (fun dd => isact fb dd = true) deps -> entry_ok fb deps entry = true ->
+  Forall (fun dd => sact fb dd = true) deps -> entry_ok fb deps entry = true ->
   map2 (fun d col => match col with
                      | [Some x] => match first_variable_for_level fb d x with Some v => DIdx v | None => DBefore 0 end
                      | _ => DBefore 0
@@ -52,7 +52,8 @@ Proof.
   apply andb_true_iff in He. destruct He as [Hc He]. inversion Hd as [|? ? Hdd Hds]; subst.
   unfold entry_deps. cbn [map2]. f_equal; [|apply IH; assumption].
   unfold col_ok in Hc. destruct col as [|[x|] [|? ?]]; try discriminate. apply Nat.ltb_lt in Hc.
-  now rewrite (f1_first_var fb HF1 dd x Hdd Hc).
+  cbv beta in Hdd. apply (sact_split fb) in Hdd. destruct Hdd as [Hda Hdc].
+  now rewrite (f1_first_var fb HF1 dd x Hda Hc), Hdc.
 Qed.
 
 Lemma simple_offset_in fs : forall f o, simple_offset fb fs f = Some o -> In f fs.
@@ -62,15 +63,16 @@ Proof.
   destruct (simple_offset fb gs f) as [o'|] eqn:E'; [|discriminate]. right. now apply (IH f o').
 Qed.
 
-(** the shape of every [FDerivation] of an F1 record *)
-Lemma deriv_shape d deps f :
+(** every [FDerivation] of an F1 record is the derivation of a level of a derived factor of act_design *)
+Lemma deriv_shape0 d deps f :
   In (FDerivation d deps f) (fl_constraints fb) ->
   exists fd w l lv,
     nth_error (fl_design fb) f = Some fd /\ ff_window fd = Some w /\ nth_error (ff_levels fd) l = Some lv /\
-    isact fb f = true /\ l < nlevels fb f /\ d = off fb f + l /\
-    deps = map (entry_deps (win_deps w)) (lv_accepts lv) /\
-    Forall (fun dd => isact fb dd = true) (win_deps w) /\
-    Forall (fun entry => entry_ok fb (win_deps w) entry = true) (lv_accepts lv).
+    isact fb f = true /\ l < nlevels fb f /\ first_variable_for_level fb f l = Some d /\
+    deps = (if ff_complex fd then expected_deps_c fb w lv else expected_deps fb w lv) /\
+    Forall (fun dd => sact fb dd = true) (win_deps w) /\
+    Forall (fun entry => (if ff_complex fd then entryw_ok fb (win_width w) (win_deps w) entry
+                          else entry_ok fb (win_deps w) entry) = true) (lv_accepts lv).
 Proof.
   intros Hin. pose proof (in_f1_facts fb HF1) as F. pose proof (f1_derivations fb F) as HD.
   unfold derivations_match in HD. apply andb_true_iff in HD. destruct HD as [_ HD2].
@@ -85,26 +87,43 @@ Proof.
   rewrite !andb_true_iff in HD2. destruct HD2 as [[_ Hd] Hdeps]. apply Nat.eqb_eq in Hd.
   apply (list_eqb'_eq _ (list_eqb'_eq _ didx_eqb_eq)) in Hdeps.
   assert (Hl' : l < nlevels fb f) by lia.
-  rewrite (f1_first_var fb HF1 f l Hf Hl') in Ev.
-  assert (Hd' : d = off fb f + l) by congruence.
   destruct (f1_tables fb F f fd Efd) as [Htab _]. unfold tables_ok in Htab. rewrite Ew in Htab.
   apply andb_true_iff in Htab. destruct Htab as [Hlt Hent]. rewrite Hf in Hent. cbn [negb orb] in Hent.
   rewrite forallb_forall in Hlt, Hent.
-  assert (Hlt' : Forall (fun dd => isact fb dd = true) (win_deps w)).
-  { apply Forall_forall. intros dd Hdd. now apply Hlt. }
-  assert (Hent' : Forall (fun entry => entry_ok fb (win_deps w) entry = true) (lv_accepts lv)).
-  { specialize (Hent lv (nth_error_In _ _ Elv)). rewrite forallb_forall in Hent. now apply Forall_forall. }
+  exists fd, w, l, lv. split; [reflexivity|]. split; [exact Ew|]. split; [exact Elv|]. split; [exact Hf|].
+  split; [exact Hl'|]. split; [now subst v|]. split; [exact Hdeps|]. split.
+  - apply Forall_forall. intros dd Hdd. now apply Hlt.
+  - specialize (Hent lv (nth_error_In _ _ Elv)). rewrite forallb_forall in Hent. apply Forall_forall. intros e He.
+    specialize (Hent e He). destruct (ff_complex fd); exact Hent.
+Qed.
+
+Lemma is_complex_at f fd : nth_error (fl_design fb) f = Some fd -> is_complex fb f = ff_complex fd.
+Proof. intros E. unfold is_complex, factor_at. now rewrite E. Qed.
+
+(** the shape of the [FDerivation] of a factor without a complex window *)
+Lemma deriv_shape d deps f :
+  In (FDerivation d deps f) (fl_constraints fb) -> is_complex fb f = false ->
+  exists fd w l lv,
+    nth_error (fl_design fb) f = Some fd /\ ff_window fd = Some w /\ nth_error (ff_levels fd) l = Some lv /\
+    isact fb f = true /\ l < nlevels fb f /\ d = off fb f + l /\
+    deps = map (entry_deps (win_deps w)) (lv_accepts lv) /\
+    Forall (fun dd => sact fb dd = true) (win_deps w) /\
+    Forall (fun entry => entry_ok fb (win_deps w) entry = true) (lv_accepts lv).
+Proof.
+  intros Hin Hcx.
+  destruct (deriv_shape0 d deps f Hin) as (fd & w & l & lv & Efd & Ew & Elv & Hf & Hl' & Ev & Hdeps & Hlt' & Hent').
+  rewrite (is_complex_at f fd Efd) in Hcx. rewrite Hcx in Hdeps, Hent'.
+  rewrite (f1_first_var fb HF1 f l Hf Hl'), (is_complex_at f fd Efd), Hcx in Ev.
+  assert (Hd' : d = off fb f + l) by congruence.
   assert (Hdeps' : deps = map (entry_deps (win_deps w)) (lv_accepts lv)).
   { rewrite Hdeps. unfold expected_deps. apply map_ext_in. intros entry He.
-    apply entry_deps_expected.
-    - eapply Forall_impl; [|exact Hlt']. intros dd Hdd. cbv beta in Hdd. lia.
-    - exact (proj1 (Forall_forall _ _) Hent' entry He). }
-  exists fd, w, l, lv. split; [reflexivity|]. split; [exact Ew|]. split; [exact Elv|]. split; [exact Hf|].
+    apply entry_deps_expected; [exact Hlt'|exact (proj1 (Forall_forall _ _) Hent' entry He)]. }
+  exists fd, w, l, lv. split; [exact Efd|]. split; [exact Ew|]. split; [exact Elv|]. split; [exact Hf|].
   split; [exact Hl'|]. split; [exact Hd'|]. split; [exact Hdeps'|]. split; [exact Hlt'|exact Hent'].
 Qed.
 
 Lemma entry_deps_idx deps : forall entry x,
-  Forall (fun dd => isact fb dd = true) deps -> entry_ok fb deps entry = true ->
+  Forall (fun dd => sact fb dd = true) deps -> entry_ok fb deps entry = true ->
   In x (entry_deps deps entry) -> exists i, x = DIdx i /\ i < vpt fb.
 Proof.
   induction deps as [|dd deps IH]; intros [|col entry] x Hd He Hx; cbn [entry_ok] in He; try discriminate;
@@ -117,21 +136,20 @@ Qed.
 
 (** * The contribution of a Derivation is a block *)
 Lemma step_deriv d deps f :
-  In (FDerivation d deps f) (fl_constraints fb) ->
+  In (FDerivation d deps f) (fl_constraints fb) -> is_complex fb f = false ->
   forall fresh ct, (GZ < fresh)%Z -> apply_constraint fb (FDerivation d deps f) fresh = COk ct ->
   exists ext, DefinesA (fresh - 1) (ct_fresh ct - 1) (ct_clauses ct) (ct_requests ct) ext (Pderiv d deps).
 Proof.
-  intros Hin fresh ct Hfr E.
-  destruct (deriv_shape d deps f Hin) as (fd & w & l & lv & Efd & Ew & Elv & Hf & Hl & Hd & Hdeps & Hlt & Hent).
-  assert (Hdv : d < vpt fb) by (pose proof (f1_off_vpt fb HF1 f Hf); lia).
+  intros Hin Hcx fresh ct Hfr E.
+  destruct (deriv_shape d deps f Hin Hcx) as (fd & w & l & lv & Efd & Ew & Elv & Hf & Hl & Hd & Hdeps & Hlt & Hent).
+  assert (Hdv : d < vpt fb) by (pose proof (f1_off_vpt fb HF1 f (proj2 (sact_split fb f) (conj Hf Hcx))); lia).
   assert (Hidx : forall e x, In e deps -> In x e -> exists i, x = DIdx i /\ i < vpt fb).
   { intros e x He Hx. rewrite Hdeps in He. apply in_map_iff in He. destruct He as (entry & <- & Hentry).
-    apply (entry_deps_idx (win_deps w) entry x); [|exact (proj1 (Forall_forall _ _) Hent entry Hentry)|exact Hx].
-    eapply Forall_impl; [|exact Hlt]. intros dd Hdd. cbv beta in Hdd. lia. }
+    apply (entry_deps_idx (win_deps w) entry x); [exact Hlt|exact (proj1 (Forall_forall _ _) Hent entry Hentry)|exact Hx]. }
   assert (HGZ : (0 <= GZ)%Z) by (unfold F1Kinds.GZ, zn; lia).
   cbn [apply_constraint] in E. unfold apply_derivation in E.
   replace (d <? grid_variables fb) with true in E.
-  2:{ symmetry. apply Nat.ltb_lt. rewrite (f1_grid fb). nia. }
+  2:{ symmetry. apply Nat.ltb_lt. rewrite (f1_grid fb). unfold GN. nia. }
   unfold deriv_simple in E.
   replace (existsb (existsb is_before) deps) with false in E.
   2:{ symmetry. apply not_true_is_false. intros Hex. apply existsb_exists in Hex. destruct Hex as (e & He & Hex).
@@ -145,7 +163,7 @@ Proof.
   intros z Hz. cbn [leaves] in Hz. unfold deriv_iffs in Hz. rewrite flat_map_map in Hz.
   apply in_flat_map in Hz. destruct Hz as (n & Hn & Hz). apply in_seq in Hn. cbn [leaves fv] in Hz.
   assert (Hbound : forall i, i < vpt fb -> (0 < Z.of_nat (i + n * vpt fb + 1) < fresh)%Z).
-  { intros i Hi. unfold F1Kinds.GZ, GN, zn in Hfr. nia. }
+  { intros i Hi. unfold F1Kinds.GZ, VN, GN, zn in Hfr. nia. }
   destruct Hz as [<-|Hz]; [specialize (Hbound d Hdv); lia|].
   rewrite flat_map_map in Hz. apply in_flat_map in Hz. destruct Hz as (e & He & Hz). cbn [leaves] in Hz.
   rewrite flat_map_map in Hz. apply in_flat_map in Hz. destruct Hz as (x & Hx & Hz).
